@@ -212,6 +212,53 @@ theorem C05_zero_rows_dense (m : CSR K) (D : List Nat)
       = if i ∈ D then 0 else CSR.entry m i j :=
   zero_rows_dense m D hmono i j hi hD
 
+/-- **condense and enforce agree**: the expanded solution of the condensed system solves the
+    system produced by `enforce` (default `diag = 1`), for every matrix, data and index split -/
+theorem C05_condense_solves_enforced (n : Nat) (A : Nat → Nat → K) (b x : Nat → K) (I D : List Nat)
+    (hI : I.Nodup) (hD : D.Nodup) (hdisj : ∀ i, i ∈ I → i ∉ D)
+    (hcover : ∀ i, i < n ↔ (i ∈ I ∨ i ∈ D))
+    (sol : List K) (hlen : sol.length = I.length)
+    (hsol : ∀ p (hp : p < I.length),
+      condensedRowApply A I sol (I[p]) = (condenseRhs A b x I D)[p]'(by simp [condenseRhs]; exact hp)) :
+    ∀ i < n, matVec n (enforceMat A D 1) (expandSol x I sol) i = enforceRhs b x D i := by
+  obtain ⟨h1, h2⟩ := C05_condense_expand n A b x I D hI hD hdisj hcover sol hlen hsol
+  refine (C05_enforce_same_solution n A b x _ D 1 (fun d hd => (hcover d).mpr (Or.inr hd))).mpr ⟨?_, ?_⟩
+  · intro d hd; rw [one_mul]; exact h1 d hd
+  · intro i hin hi
+    rcases (hcover i).mp hin with h | h
+    · exact h2 i h
+    · exact absurd h hi
+
+/-- `enforce` is idempotent (same `D`, same `diag`): enforcing an enforced system changes nothing -/
+theorem C05_enforce_idempotent (A : Nat → Nat → K) (b x : Nat → K) (D : List Nat) (diag : K) :
+    enforceMat (enforceMat A D diag) D diag = enforceMat A D diag
+    ∧ enforceRhs (enforceRhs b x D) x D = enforceRhs b x D := by
+  constructor
+  · funext i j; unfold enforceMat; split <;> rfl
+  · funext i; unfold enforceRhs; split <;> rfl
+
+/-- a matrix right-hand side (mass matrix of an eigenproblem) is enforced with `diag = 0`: its
+    constrained rows vanish entirely, so no finite eigenvalue is contributed by `D` -/
+theorem C05_enforce_mass_rows_zero (M : Nat → Nat → K) (D : List Nat) (i j : Nat) (hi : i ∈ D) :
+    enforceMat M D 0 i j = 0 := by
+  simp [enforceMat, hi]
+
+/-- the enforced matrix and right-hand side depend on `D` only as a set (order and repetitions of
+    the index list are irrelevant) -/
+theorem C05_enforce_set_only (A : Nat → Nat → K) (b x : Nat → K) (D D' : List Nat) (diag : K)
+    (h : ∀ i, i ∈ D ↔ i ∈ D') :
+    enforceMat A D diag = enforceMat A D' diag ∧ enforceRhs b x D = enforceRhs b x D' := by
+  have hc : ∀ i, D.contains i = D'.contains i := by
+    intro i
+    by_cases hi : i ∈ D
+    · rw [contains_eq_true_iff.mpr hi, contains_eq_true_iff.mpr ((h i).mp hi)]
+    · have h1 : D.contains i = false := by simpa using hi
+      have h2 : D'.contains i = false := by simpa using (fun h' => hi ((h i).mpr h'))
+      rw [h1, h2]
+  constructor
+  · funext i j; simp only [enforceMat, hc]
+  · funext i; simp only [enforceRhs, hc]
+
 end Ring2
 
 /-- non-vacuity of `C05_zero_rows_dense`: the `indptr` of the examples is non-decreasing on its
